@@ -6,8 +6,8 @@ for d in /verif/seeded/*/; do
   name=$(basename $d); [ -f $d/meta.json ] || continue
   i=$((i+1)); [ $((i % n)) -eq $k ] || continue
   [ -n "${REGRESS_SKIP:-}" ] && grep -qx "$name" "$REGRESS_SKIP" && continue
-  # every scratch copy has a path of its own, so the Go build cache only grows (it filled the disk once): trim it now and then
-  [ $((i % (60*n))) -eq $k ] && GOFLAGS=-mod=mod go clean -cache 2>/dev/null
+  # every scratch copy has a path of its own, so the Go build cache only grows (it filled the disk once): empty it when the disk gets short (a build running in another stream at that moment may fail once: re-run such a SUITE-FAILS line)
+  if [ "$(df --output=avail -BG / | tail -1 | tr -dc 0-9)" -lt 25 ]; then GOFLAGS=-mod=mod go clean -cache 2>/dev/null; fi
   ids=$(python3 -c "import json,sys; m=json.load(open('$d/meta.json')); only='$REGRESS_IDS'.split(); print(' '.join(x for x in m.get('detected_by',[]) if not only or x in only))")
   [ -n "$ids" ] || { [ -n "$REGRESS_IDS" ] || echo "NEVER-DETECTED $name"; continue; }
   res=$(/verif/selftest $d/patch.diff $ids 2>&1)
